@@ -944,11 +944,41 @@ def c08(tier):
                         extra=lambda v: (topics_ret_graph(v, tier == "thorough"), fanin_validate(v, "C08", tier)), frag_item=1)
 
 
+def will_on_expiry(v, tier):
+    """The keep-alive expiry as the reason of a connection's end (C09 names it): the KeepAlive schedules in which the client falls
+    silent at once or after one packet, on a fresh session, a resumed one and next to a rival connection with the same client
+    identifier, run in real time with K = 1 s: the connection ends and its will reaches the witness exactly once."""
+    thorough = tier == "thorough"
+    r = core.cached_tlc("keepalive4-%d" % (4 if thorough else 3), "KeepAlive", KA_CFG % (4 if thorough else 3), workers=1, timeout=600)
+    v.tlc("KeepAlive", r)
+    scheds = [s for s in core.behaviours(r.lines) if len(s) <= 2 and not s[0].get("deaf") and s[-1].get("expect") == "dropped"]
+    if len(scheds) < 6:
+        raise Infra("KeepAlive: only %d schedules that end in an expiry" % len(scheds))
+    p = core.run_harness(["keepalive", "-k", "1", "-req", "1", "-unitms", "0", "-lanes", "48"], stdin_obj=scheds, timeout=900)
+    if p.returncode != 0:
+        raise Infra("keepalive failed: %s" % p.stderr[-2000:])
+    res = json.loads(p.stdout.strip().splitlines()[-1])
+    if res.get("counts", {}).get("infra"):
+        raise Infra("keepalive harness: %s" % res.get("notes"))
+    late = res.get("counts", {}).get("late", 0)
+    if late * 5 > max(1, res.get("evaluations", 0)):
+        raise Infra("keepalive harness: %d of %d schedules could not be kept in real time (machine too loaded)" % (late, res.get("evaluations", 0)))
+    v.cov["parts"]["will-on-keep-alive-expiry(K=1s)"] = {"schedules": res.get("evaluations", 0), "mismatching": res.get("nmismatch", 0), "not_kept_in_real_time": late}
+    v.cov["evaluations"] += res.get("evaluations", 0)
+    v.cov["traces_validated_against_impl"] += res.get("evaluations", 0)
+    for m in res.get("mismatches") or []:
+        if not m.get("known"):
+            m = dict(m, what="connection ending by keep-alive expiry: " + m.get("what", ""), tag="C09")
+            v.mismatch(m)
+
+
 @check("C09")
 def c09(tier):
     return broker_check("C09", tier, [("WillSpec", "paths", 6, 7, "mockSuccess"), ("WillSpec", "cover", 7, 8, "mockSuccess"), ("WillEofSpec", "paths", 4, 6, "mockSuccess")], {"C09", "C01", "C08", "C07"},   # in this configuration every retained message is a will
                         "configuration will: all sequences of connect (CleanSession x {no will, QoS 0, QoS 1 + retain, QoS 2 + empty payload}) / end (DISCONNECT, "
-                        "cut, malformed packet) on one client id, witness subscribed to '#'; the will deliveries per connection end are compared.", pipe_item=0)
+                        "cut, malformed packet) on one client id, witness subscribed to '#'; the will deliveries per connection end are compared. "
+                        "Keep-alive expiry as the end of a connection: KeepAlive schedules run in real time (will exactly once).", pipe_item=0,
+                        extra=lambda v: will_on_expiry(v, tier))
 
 
 @check("C10")
@@ -1396,6 +1426,7 @@ CONSTANTS
  MaxReq = %(maxreq)d
  DevRegisterAfterWrite = %(dev)s
  DedupDispatch = TRUE
+ NoCb = {1, 4}
 INVARIANTS TypeOK %(emit)s
 PROPERTIES CompleteOnce NotBeforeAck DispatchSound
 %(view)s
